@@ -151,17 +151,22 @@ def run(R, tier, seed, driver_ok):
             calls += [('score', (Tt, np.array([1, -1, 1, -1])) if name in zoo.PAIRS else (Tt,))]
         if name in zoo.PAIRS:
             calls += [('set_threshold', (0.5,)), ('calibrate_threshold', (P2, np.array([1, -1, 1, -1])))]
-        for m, a in calls:
-            R.case(('c18', name, m, 'unfitted'), True, branch='unfitted')
-            try:
-                with warnings.catch_warnings():
-                    warnings.simplefilter('ignore')
-                    getattr(unf, m)(*a)
-                R.violation(f'{name}.{m}/unfitted-returns', f'{name}.{m} on an unfitted estimator returned a result', {'cls': name, 'method': m})
-            except NotFittedError:
-                pass
-            except Exception as e:
-                R.violation(f'{name}.{m}/unfitted-{type(e).__name__}', f'{name}.{m} on an unfitted estimator raised {type(e).__name__}', {'cls': name, 'method': m})
+        # … also when the unfitted instance is a copy: unpickled, deep-copied, cloned, with or without a preprocessor
+        import copy as _copy
+        variants = [('', unf), ('unpickled-', pickle.loads(pickle.dumps(cls()))), ('deepcopied-', _copy.deepcopy(cls())),
+                    ('cloned-', clone(cls())), ('unpickled-with-preprocessor-', pickle.loads(pickle.dumps(cls(preprocessor=rng.randn(6, d)))))]
+        for vlabel, inst in variants:
+            for m, a in calls:
+                R.case(('c18', name, m, vlabel + 'unfitted'), True, branch='unfitted')
+                try:
+                    with warnings.catch_warnings():
+                        warnings.simplefilter('ignore')
+                        getattr(inst, m)(*a)
+                    R.violation(f'{name}.{m}/{vlabel}unfitted-returns', f'{name}.{m} on an unfitted ({vlabel or "fresh"}) estimator returned a result', {'cls': name, 'method': m})
+                except NotFittedError:
+                    pass
+                except Exception as e:
+                    R.violation(f'{name}.{m}/{vlabel}unfitted-{type(e).__name__}', f'{name}.{m} on an unfitted ({vlabel or "fresh"}) estimator raised {type(e).__name__}', {'cls': name, 'method': m})
     # 6. pickle round trip preserves all outputs bit for bit
     for label, est, X, y in zoo.population(rng, reps=1, lowrank=(tier == 'thorough')):
         blob = pickle.dumps(est)
@@ -190,6 +195,32 @@ def run(R, tier, seed, driver_ok):
                 R.violation(f'{name}.clone/after-pickle/params', f'{label}: clone of the unpickled estimator has other parameters', {'cls': label})
         except RuntimeError as e:
             R.violation(f'{name}.clone/after-pickle/deprecated-alias-identity', f'{label}: clone raises RuntimeError after a pickle round trip: {str(e)[:160]}', {'cls': label})
+
+    # 6b. … also when the preprocessor parameter was changed after the fit (no refit): whatever the estimator answers on
+    #     indicator input, its unpickled copy answers the same
+    names6 = zoo.ALL if tier == 'thorough' else [zoo.ALL[i] for i in rng.choice(len(zoo.ALL), 6, replace=False)]
+    for name in names6:
+        d = int(rng.randint(2, 4))
+        X, y = zoo.blobs(rng, d, 3, 7)
+        prm = zoo.fix_params(name, zoo.default_params(name, rng, d), X, y)
+        if name.startswith('SDML'):
+            prm['balance_param'] = 1e-7
+        try:
+            with warnings.catch_warnings():
+                warnings.simplefilter('ignore')
+                ia, fa = zoo.fit_args(name, X, y, rng, indices=True)
+                est = zoo.CLASSES[name](preprocessor=X, **prm).fit(*ia)
+                est.set_params(preprocessor=X[::-1] * 1.5 + 0.25)
+                e2 = pickle.loads(pickle.dumps(est))
+                ii = np.arange(len(X)); ip = np.column_stack([ii, ii[::-1]])
+                R.case(('c18', name, 'pickle-after-set_params', X.tobytes().hex()[:32]), True, branch='pickle-after-set_params')
+                for nm, f in (('transform', lambda e: e.transform(ii)), ('pair_distance', lambda e: e.pair_distance(ip))):
+                    a, b = np.asarray(f(est)), np.asarray(f(e2))
+                    if a.shape != b.shape or a.tobytes() != b.tobytes():
+                        R.violation(f'{name}.pickle/after-set_params/{nm}', f'{name}: {nm} on indicator input differs between an estimator (fitted, then set_params(preprocessor=…)) and its unpickled copy', {'cls': name, 'output': nm})
+        except RuntimeError:
+            if not name.startswith('SDML'):
+                raise
 
     # 7. parameters stay untouched through fit: what get_params returns after fit is the identical object with the
     #    contents it had at construction, so that clone(fitted) and a refit behave like the first fit
